@@ -41,7 +41,8 @@ function (helpers and slices down to `List.take` / `List.drop` on both sides, so
 evaluate it along that path. -/
 macro "hdr_leaf" d:term : tactic =>
   `(tactic| (unfold header
-             simp only [bytes_to_uint, Py.slice, pySlice, magic_generic, magic_idx, magic_idx_crc] at *
+             simp only [bytes_to_uint, Py.slice, pySlice, magic_generic, magic_idx, magic_idx_crc, and7, and255, shiftRight_lit, shiftLeft_lit,
+               Nat.reducePow] at *
              have h0 := getElem?_zero_of_lt (xs := $d) (by omega)
              leval
              first | rfl | hdr_accept))
